@@ -246,11 +246,6 @@ impl Compiler {
 
         // add the false branch, update the split target
         self.b.set_split_target(split_pc, self.b.pc(), true);
-        #[cfg(feature = "verif_hooks")]
-        if crate::verif::cond_leak_repair() {
-            // attribution switch only: drop the auxiliary-stack entry pushed by BeginAtomic
-            self.b.add(Insn::EndAtomic);
-        }
         handle_child(self, 2)?;
 
         // update the jump target for jumping over the false branch
